@@ -1,5 +1,5 @@
 import RactorModel.Lemmas.LeakyBucket
-import RactorModel.Lemmas.FactoryLimit
+import RactorModel.Lemmas.FactoryFrame
 import RactorModel.Extracted
 
 /-!
@@ -145,6 +145,36 @@ theorem oldest_sheds_each_once (w : W) (j : Job) (L : Nat) (hd : w.disc = some (
       (w.maybeEnqueue j).env.log = (w.env.accept j).log ++ shed.map (loadshedEv w.env.hasHandler) :=
   maybeEnqueue_oldest_shed w j L hd
 
+
+open Factory in
+/-- (limit, at the level of the `Dispatch` handler) for every state of the factory, every
+router and queue type: handling a dispatch of a discardable job never leaves the factory queue
+longer than `max L lenBefore`. With a limit that is constant since the queue was within it, this
+is the invariant "never more than `L` waiting jobs after a dispatch has been processed". -/
+theorem limit_dispatch (w : W) (j : Job) (L : Nat) (m : Mode) (hd : w.disc = some (L, m))
+    (hdisc : discardable w.cfg j = true) : (w.dispatch j).queue.length ≤ max L w.queue.length :=
+  dispatch_queue_le w j L m hd hdisc
+
+/-! ## Discard limit on the worker queues (`enqueue_job`, worker-queueing routers) -/
+
+open Factory in
+/-- (limit, worker queue) `enqueue_job` never grows a worker's message queue beyond
+`max L lenBefore`, in both discard modes and for every `L` (0 included), whenever the hand-over
+to the worker's actor succeeds (the actor is open — true at every message boundary, because
+supervision events outrank messages; a hand-over to a worker that has just died keeps the job
+in the queue for the replacement, see `C13.dispatchJob_to_dead_keeps_job`). -/
+theorem limit_worker_queue (p : WP) (e : Env) (j : Job) (L : Nat) (m : Mode) (hd : p.disc = some (L, m))
+    (hopen : ActorOpen e p.actor) : (p.enqueueJob e j).1.mq.length ≤ max L p.mq.length :=
+  enqueueJob_length p e j L m hd hopen
+
+open Factory in
+/-- (limit, worker queue, Oldest) with a job in flight the queue ends within `L` even if it
+was longer before (limit lowered): the oldest jobs are shed; the loop terminates by its own
+exit condition. -/
+theorem limit_worker_oldest (p : WP) (e : Env) (j : Job) (L : Nat) (hd : p.disc = some (L, .oldest))
+    (hbusy : p.curr ≠ []) : (p.enqueueJob e j).1.mq.length ≤ L :=
+  enqueueJob_oldest_le p e j L hd hbusy
+
 /-! ## Source-derived constants (E-SRC) -/
 
 theorem extracted_pool_maximum : Extracted.globalWorkerPoolMaximum = some Factory.GLOBAL_WORKER_POOL_MAXIMUM := by decide
@@ -183,5 +213,8 @@ end C15
 #print axioms C15.limit_newest_discardable
 #print axioms C15.newest_sheds_incoming_once
 #print axioms C15.oldest_sheds_each_once
+#print axioms C15.limit_dispatch
+#print axioms C15.limit_worker_queue
+#print axioms C15.limit_worker_oldest
 #print axioms C15.extracted_pool_maximum
 #print axioms C15.extracted_calculate_frequency
